@@ -15,7 +15,10 @@ def run(chk, tier, seed):
     nsh = 8
     for s in range(nsh):
         jobs.append(dict(tag="enum2-%d" % s, args=["enum", 2, "bhu", "{out}", s, nsh]))
-    jobs.append(dict(tag="rand", args=["rand", 1500 if tier == "quick" else 6000, 4096, seed, "{out}"]))
+    # random strings up to 4 KiB: several small files (ndJsonDeserialize holds a whole file in memory)
+    nr = 1500 if tier == "quick" else 6000
+    for s in range(8):
+        jobs.append(dict(tag="rand%d" % s, args=["rand", nr // 8, 4096, seed * 8 + s, "{out}"]))
     if tier == "thorough":
         nsh3 = 64
         for s in range(nsh3):
